@@ -203,7 +203,24 @@ pub fn run_thread(tid: usize, ops: &[Vec<i64>], shared: &Arc<AbiConnection<dyn S
             "create_incompatible" => {
                 // caller and implementation disagree about the argument type of `f`: every attempt must fail with an
                 // error (and must not disturb anybody else)
-                let r = unsafe { AbiConnection::<dyn a_bad::IfA>::from_boxed_trait_for_test(<dyn a_v0::IfA as AbiExportable>::ABI_ENTRY, Box::new(ImplA0) as Box<dyn a_v0::IfA>) };
+                if a % 3 == 2 {
+                    // the implementation requires a Send + Sync closure, the caller does not promise one
+                    let r = unsafe { AbiConnection::<dyn c_caller::IfC>::from_boxed_trait_for_test(<dyn c_callee::IfC as AbiExportable>::ABI_ENTRY, Box::new(ImplC) as Box<dyn c_callee::IfC>) };
+                    match r {
+                        Ok(_) => panic!("MUST-FAIL-ACCEPTED: a connection between a caller passing Box<dyn Fn> and an implementation requiring Box<dyn Fn + Send + Sync> was created"),
+                        Err(e) => out.push(format!("incompatible closure bounds: error {}", format!("{:?}", e).chars().take(40).collect::<String>())),
+                    }
+                    continue;
+                }
+                // (the implementation object's Drop uses the library itself)
+                let r = if a % 3 == 1 {
+                    unsafe { AbiConnection::<dyn a_bad::IfA>::from_boxed_trait_for_test(<dyn a_v0::IfA as AbiExportable>::ABI_ENTRY, Box::new(ImplDropper) as Box<dyn a_v0::IfA>) }
+                } else {
+                    unsafe { AbiConnection::<dyn a_bad::IfA>::from_boxed_trait_for_test(<dyn a_v0::IfA as AbiExportable>::ABI_ENTRY, Box::new(ImplA0) as Box<dyn a_v0::IfA>) }
+                };
+                if r.is_ok() {
+                    panic!("MUST-FAIL-ACCEPTED: a connection between incompatible definitions of IfA was created");
+                }
                 out.push(match r {
                     Ok(_) => "incompatible: CONNECTED".to_string(),
                     Err(e) => format!("incompatible: error {}", format!("{:?}", e).chars().take(40).collect::<String>()),
@@ -322,6 +339,16 @@ pub fn run_thread(tid: usize, ops: &[Vec<i64>], shared: &Arc<AbiConnection<dyn S
     out
 }
 
+/// what the post phase reports on this platform when every negotiation happened one after another (checked by the
+/// shuttle engine against its own sequential reference run on every job; used as the yardstick by the Miri engine, whose
+/// sequential run shares the process - and therefore the caches - with the concurrent one)
+pub fn expected_post() -> Vec<String> {
+    vec![
+        "A.same g#0 by_ref=true take#0 by_ref=true".to_string(),
+        "A.old-caller g#0 by_ref=false g(7)=26".to_string(),
+        "B k#0 by_ref=true h#0 by_ref=true h=6".to_string(),
+    ]
+}
 pub struct Outcome {
     pub per_thread: Vec<Vec<String>>,
     pub post: Vec<String>,
@@ -365,7 +392,7 @@ pub fn scenario(w: &Workload, sequential: bool) -> Outcome {
             post.push(format!("A.old-caller g#0 by_ref={} g(7)={}", c.get_arg_passable_by_ref("g", 0), c.g(a_v0::Arg { a: 7 })));
         }
         let c = AbiConnection::<dyn IfB>::from_boxed_trait(Box::new(ImplB)).expect("post B");
-        post.push(format!("B k#0 by_ref={} h={}", c.get_arg_passable_by_ref("k", 0), c.h("abc".into())));
+        post.push(format!("B k#0 by_ref={} h#0 by_ref={} h={}", c.get_arg_passable_by_ref("k", 0), c.get_arg_passable_by_ref("h", 0), c.h("abc".into())));
     }
     let t = tester.lock().unwrap();
     Outcome { per_thread, post, linearizable: t.is_consistent(), history_len: t.len() }
